@@ -8,9 +8,10 @@
 EXTENDS Pool, Json, TLCExt
 
 CONSTANTS
-  Scenarios   \* sequence of [votes, certs, blocks, waits] universes (Init picks one)
+  Scenarios,  \* sequence of [votes, certs, blocks, waits] universes (Init picks one)
+  SimDepth    \* 0: exhaustive mode; > 0: simulation mode, behaviours of this length are printed
 
-VARIABLES pool, scnI, act, out, hist, sid
+VARIABLES pool, scnI, act, out, hist, sid, tr
 
 scn == Scenarios[scnI]
 
@@ -28,7 +29,7 @@ ScnSlot ==
     blocks |-> {<< <<5, "A">>, <<4, "P">> >>, << <<5, "B">>, <<4, "P">> >>},
     waits  |-> {}]>>
 
-vars == <<pool, scnI, act, out, hist, sid>>
+vars == <<pool, scnI, act, out, hist, sid, tr>>
 View == <<pool, scnI, hist>>
 
 \* 64-bit state identifier for the edge dump (sid is a function of the view)
@@ -40,6 +41,13 @@ Id(p, s, h) == <<TLCFP(<<p, s, h>>), TLCFP(<<h, s, p.votes, p.certs, p.fst, p.pr
 \*   hist.s2n / hist.s2s : safe-to-notar / safe-to-skip signals so far (multisets as sequences)
 \*   hist.fin : finalization reports
 EmptyHist == [ann |-> {}, created |-> {}, s2n |-> {}, s2s |-> {}, dup |-> FALSE]
+
+FstSeq(p) == [i \in 1..(MaxSlot + 1) |-> p.fst[i - 1]]
+
+Obs(p) == [hi |-> p.highest, fup |-> p.fup, ret |-> p.retained, fst |-> FstSeq(p),
+           certs |-> p.certs,
+           ready |-> {p.prready[i] : i \in 1..Len(p.prready)},
+           panic |-> p.panic]
 
 EvSet(o) == {o.ev[i] : i \in 1..Len(o.ev)}
 
@@ -65,7 +73,8 @@ Step(a, o) ==
   /\ act' = a
   /\ out' = [ret |-> o.ret, ev |-> o.ev, rep |-> o.rep, woken |-> o.woken, panic |-> o.panic]
   /\ hist' = NextHist(hist, o)
-  /\ sid' = Id(o.p, scnI, hist')
+  /\ sid' = IF SimDepth = 0 THEN Id(o.p, scnI, hist') ELSE sid
+  /\ tr' = IF SimDepth = 0 THEN tr ELSE Append(tr, [a |-> a, e |-> out', obs |-> Obs(o.p)])
   /\ UNCHANGED scnI
 
 Init ==
@@ -75,10 +84,24 @@ Init ==
   /\ out = [ret |-> "", ev |-> <<>>, rep |-> <<>>, woken |-> {}, panic |-> ""]
   /\ hist = EmptyHist
   /\ sid = Id(pool, scnI, hist)
+  /\ tr = <<>>
+
+\* what a fresh pool reaches when it receives only the bundle's certificates
+RECURSIVE FoldCerts(_, _)
+FoldCerts(p, C) ==
+  IF C = {} THEN p
+  ELSE LET c == CHOOSE x \in C : \A y \in C : x.s <= y.s
+       IN FoldCerts(AddCert(p, c).p, C \ {c})
+
+NextWindow(s) == FirstInWindow(s) + W
+CatchUp(p) ==
+  LET q == FoldCerts(EmptyPool, StandstillBundle(p).certs)
+  IN [hi |-> q.highest, ready |-> ReadyOf(q, NextWindow(p.highest)), panic |-> q.panic]
 
 BundleOut(p) ==
   LET b == StandstillBundle(p)
-  IN [ret |-> "Ok", ev |-> <<[t |-> "Standstill", s |-> b.slot, certs |-> b.certs, votes |-> b.votes]>>,
+  IN [ret |-> "Ok", ev |-> <<[t |-> "Standstill", s |-> b.slot, certs |-> b.certs, votes |-> b.votes,
+                             fresh |-> CatchUp(p)]>>,
       rep |-> <<>>, woken |-> {}, panic |-> ""]
 
 Next ==
@@ -90,6 +113,8 @@ Next ==
                              /\ s >= pool.prroot
                              /\ Step([op |-> "wait", s |-> s], WaitParentReady(pool, s))
      \/ /\ act' = [op |-> "standstill"] /\ out' = BundleOut(pool)
+        /\ tr' = IF SimDepth = 0 THEN tr
+                  ELSE Append(tr, [a |-> act', e |-> out', obs |-> Obs(pool)])
         /\ UNCHANGED <<pool, scnI, hist, sid>>
 
 Spec == Init /\ [][Next]_vars
@@ -97,15 +122,14 @@ Spec == Init /\ [][Next]_vars
 ---------------------------------------------------------------------------
 (* Edge / state dump for replay *)
 
-FstSeq(p) == [i \in 1..(MaxSlot + 1) |-> p.fst[i - 1]]
-
-Obs(p) == [hi |-> p.highest, fup |-> p.fup, ret |-> p.retained, fst |-> FstSeq(p),
-           certs |-> p.certs,
-           ready |-> {p.prready[i] : i \in 1..Len(p.prready)},
-           panic |-> p.panic]
-
 EmitEdge ==
   PrintT(<<"EDGE", ToJson([f |-> sid, a |-> act', e |-> out', t |-> sid'])>>)
+
+\* simulation mode (-simulate): TLC evaluates invariants on every candidate successor, so the
+\* behaviour is carried in `tr` and printed once, when it reaches SimDepth through the
+\* (always enabled) standstill step
+EmitSim ==
+  (TLCGet("level") = SimDepth /\ act.op = "standstill") => PrintT(<<"REPLAY", ToJson(tr)>>)
 
 EmitState ==
   PrintT(<<"STATE", ToJson([id |-> sid, init |-> (TLCGet("level") = 1),
@@ -114,7 +138,16 @@ EmitState ==
 ---------------------------------------------------------------------------
 (* Properties (state invariants over pool + ghost history)                 *)
 
-OK(p) == p.panic = ""
+\* What a pool can hold when < 20% of the stake is Byzantine: a finalized slot has no skip
+\* certificate and no certificate for another block.  Vote-level universes can leave this envelope
+\* (any signer may cast any vote); the properties are stated for the states inside it.
+ConsistentP(p) ==
+  \A s \in Slots :
+    (HasCertK(p, "ff", s) \/ HasCertK(p, "final", s)) =>
+      /\ ~HasCertK(p, "skip", s)
+      /\ \A c1, c2 \in {c \in p.certs : c.s = s /\ c.k \in {"notar", "nf", "ff"}} : c1.h = c2.h
+
+OK(p) == p.panic = "" /\ ConsistentP(p)
 
 SlotsOf(p) == {x.s : x \in p.votes} \cup {c.s : c \in p.certs}
 HashesOf(p, s) == {x.h : x \in {y \in p.votes : y.s = s /\ y.k \in {"notar", "nf"}}}
@@ -249,11 +282,13 @@ ReadyDecl(p, s, b) ==
 \* prnf / prskip agree with the held certificates and the finality tracker's decisions
 PRInputsJustified ==
   OK(pool) =>
-  /\ \A b \in pool.prnf : b[1] >= pool.prroot =>
+  \* (add_block lets the finality tracker prune itself before the pool prunes: slots below
+  \*  the watermark are decided and their status is gone)
+  /\ \A b \in pool.prnf : b[1] >= pool.fup =>
         \/ b = Genesis
         \/ NfOrStronger(pool, b)
         \/ (pool.fst[b[1]][1] \in {"fin", "ifin"} /\ pool.fst[b[1]][2] = b[2])
-  /\ \A t \in pool.prskip : t >= pool.prroot =>
+  /\ \A t \in pool.prskip : t >= pool.fup =>
         HasCertK(pool, "skip", t) \/ pool.fst[t][1] = "iskip"
 PRInputsComplete ==
   OK(pool) =>
@@ -322,22 +357,17 @@ BundleProvesFinalized ==
   /\ \A c \in pool.certs : c.s > s => c \in b.certs
   /\ \A x \in pool.votes : (x.v = Own /\ x.s > s) => x \in b.votes
 
-RECURSIVE FoldCerts(_, _)
-FoldCerts(p, C) ==
-  IF C = {} THEN p
-  ELSE LET \* deliver lower slots first, notar before final (any order must work; one is checked here,
-           \* the order-independence itself is the subject of the two-copy model)
-           c == CHOOSE x \in C : \A y \in C : x.s <= y.s
-       IN FoldCerts(AddCert(p, c).p, C \ {c})
-
-\* a fresh pool that receives only the bundle reaches the same highest finalized slot
+\* a fresh pool that receives only the bundle reaches the same highest finalized slot and the
+\* same ready parents for the window after it
 FreshPoolCatchesUp ==
   OK(pool) =>
-  LET b == StandstillBundle(pool)
-      q == FoldCerts(EmptyPool, b.certs)
-  IN q.panic = "" /\ q.highest = pool.highest
+  LET c == CatchUp(pool)
+  IN /\ c.panic = "" /\ c.hi = pool.highest
+     /\ c.ready = ReadyOf(pool, NextWindow(pool.highest))
 
 NoPanic == pool.panic = ""
+
+Consistent == ConsistentP(pool)
 
 ---------------------------------------------------------------------------
 (* Reachability witnesses (must be VIOLATED: the interesting states exist) *)
